@@ -131,6 +131,9 @@ func (e *esdtTransferParser) parseMultiESDTNFTTransfer(sndAddr, rcvAddr []byte, 
 		isTxAtSender = true
 	}
 
+	if numOfTransfer.Uint64() > uint64(len(args)) {
+		return nil, ErrNotEnoughArguments
+	}
 	minLenArgs := ArgsPerTransfer*numOfTransfer.Uint64() + startIndex
 	if uint64(len(args)) < minLenArgs {
 		return nil, ErrNotEnoughArguments
